@@ -22,22 +22,49 @@ def to_smt2(axioms, assumptions, goal):
 
 
 def _check_z3(smt2, timeout_ms, variant=0):
+    """One z3 run with a budget of `timeout_ms` of *CPU* time (a watchdog thread interrupts the context), so that a verdict
+    does not depend on how busy the machine is; z3's own wall-clock timeout is only a safety net at 8x the budget."""
+    import threading
+
     t0 = time.time()
+    done = threading.Event()
     try:
         ctx = z3.Context()
         s = z3.Solver(ctx=ctx)
-        s.set("timeout", timeout_ms)
+        s.set("timeout", int(timeout_ms) * 8)
         if variant == 1:
             s.set("smt.arith.nl.nra", True)
             s.set("smt.mbqi", False)
         elif variant == 2:
             s.set("smt.arith.solver", 6)
             s.set("smt.random_seed", 7)
+        elif variant >= 10:
+            # same query, another search order: easy-but-unstable queries usually fall quickly with a different seed
+            s.set("smt.random_seed", variant)
         s.from_string(smt2)
-        r = s.check()
+        cpu0 = time.process_time()
+
+        def watchdog():
+            while not done.wait(0.1):
+                if (time.process_time() - cpu0) * 1000.0 > timeout_ms:
+                    try:
+                        ctx.interrupt()
+                    except Exception:
+                        pass
+                    return
+
+        th = threading.Thread(target=watchdog, daemon=True)
+        th.start()
+        try:
+            r = s.check()
+        finally:
+            done.set()
         res = str(r)
         reason = s.reason_unknown() if r == z3.unknown else ""
+        if r == z3.unknown and reason in ("canceled", "interrupted", "interrupted from keyboard"):
+            reason = "timeout"
     except Exception as e:  # z3 error: undecided, never a violation
+        done.set()
         res, reason = UNKNOWN, f"z3 exception: {e}"
     return res, time.time() - t0, reason
 
@@ -70,19 +97,27 @@ def _check_cvc5(smt2, timeout_ms):
 
 
 def _work(job):
+    """Portfolio, cheapest first: short budgets on three z3 configurations (most obligations fall in well under a second in one
+    of them, and which one is not predictable: the linear-arithmetic solver choice matters more than time), then the full budget
+    on each, then cvc5.  Only `unsat` / `sat` end the search; every `unknown` moves on."""
     idx, smt2, timeout_ms, use_cvc5, is_cover = job
-    res, t, reason = _check_z3(smt2, timeout_ms)
-    backend = "z3"
-    tried = [("z3", res, round(t, 3))]
-    if res == UNKNOWN and not is_cover:
-        for variant in (1, 2):
-            r2, t2, reason2 = _check_z3(smt2, timeout_ms, variant)
-            tried.append((f"z3/v{variant}", r2, round(t2, 3)))
-            t += t2
-            if r2 != UNKNOWN:
-                res, reason, backend = r2, reason2, f"z3/v{variant}"
-                break
-    if res == UNKNOWN and use_cvc5 and not is_cover:
+    if is_cover:
+        res, t, reason = _check_z3(smt2, timeout_ms)
+        return idx, res, t, "z3", reason, [("z3", res, round(t, 3))]
+    short_t = max(2000, timeout_ms // 4)
+    stages = [(0, short_t), (2, short_t), (1, short_t), (11, short_t), (0, timeout_ms), (2, timeout_ms), (1, timeout_ms), (12, timeout_ms // 2)]
+    tried, t = [], 0.0
+    res, reason, backend = UNKNOWN, "", "z3"
+    for variant, budget in stages:
+        r2, t2, reason2 = _check_z3(smt2, budget, variant)
+        label = "z3" if variant == 0 else (f"z3/seed{variant}" if variant >= 10 else f"z3/v{variant}")
+        tried.append((label, r2, round(t2, 3)))
+        t += t2
+        reason = reason2 or reason
+        if r2 != UNKNOWN:
+            res, backend = r2, label
+            break
+    if res == UNKNOWN and use_cvc5:
         r3, t3, reason3 = _check_cvc5(smt2, timeout_ms)
         tried.append(("cvc5", r3, round(t3, 3)))
         t += t3
